@@ -2,6 +2,7 @@ use crate::fw::Ctx;
 
 pub mod c02;
 pub mod c03;
+pub mod c04;
 pub mod c09;
 pub mod c10;
 pub mod c18;
@@ -23,6 +24,11 @@ pub fn lookup(id: &str) -> Option<Check> {
             id: "C03",
             level: "exploration",
             run: c03::run,
+        },
+        Check {
+            id: "C04",
+            level: "fault_enumeration",
+            run: c04::run,
         },
         Check {
             id: "C09",
